@@ -73,6 +73,14 @@ def run(ctx):
             for j in range(d): v = [v, 'x'] if j % 2 else {'k': v, 'e': []}
             i = len(cases)
             cases.append(mkcase('V%d' % i, lib.new_cfg(json_opts=(st, False)), json.dumps(v).encode())); exp['V%d' % i] = [expected(conv(v))]
+    # member names and strings made of each character that needs care, one at a time: every C0 control, DEL, quote, backslash, slash,
+    # NEL, line and paragraph separators, the last BMP character
+    for cp in list(range(0, 0x21)) + [0x22, 0x2f, 0x5c, 0x7e, 0x7f, 0x80, 0x85, 0x9f, 0xa0, 0x2028, 0x2029, 0xfffe, 0xffff]:
+        for st in ('oneline', 'pretty'):
+            for utf8 in (False, True):
+                v = {chr(cp): [chr(cp) + 'x', {'a' + chr(cp): chr(cp)}]}
+                i = len(cases)
+                cases.append(mkcase('V%d' % i, lib.new_cfg(json_opts=(st, utf8)), json.dumps(v).encode())); exp['V%d' % i] = [expected(conv(v))]
     # long collections (one element or member per line however many there are)
     for ln in (16, 17, 32, 33, 48, 64, 100, 257):
         for st in ('pretty', 'oneline', 'consise'):
